@@ -45,6 +45,8 @@ type Session struct {
 	Backend  string
 	H        *run.Handle
 	M        *model.DB
+	Prev     *model.DB // model state before the current step (for hooks)
+	Resynced bool      // the current step's effect was read back from the database
 	Ops      []cs.Op // as drawn (symbolic ids)
 	Hooks    []Hook
 	// id bookkeeping for clover-generated ids
@@ -155,10 +157,13 @@ func (s *Session) Do(op cs.Op) *Fail {
 		}
 	}
 	s.noteFacts(r, out)
+	s.Prev = s.M.Clone()
+	s.Resynced = false
 	if msg := s.M.Step(r, out); msg != "" {
 		return &Fail{Property: s.Property, Clause: "model:" + r.Kind, Detail: msg + "  [op " + r.String() + "]", Step: stepNo}
 	}
 	if s.M.NeedResync {
+		s.Resynced = true
 		if f := s.resync(r, stepNo); f != nil {
 			return f
 		}
